@@ -417,22 +417,22 @@ func (r *recEvents) SendReportSpan(s interop.Span) error {
 
 type actor struct {
 	lastStatus atomic.Int64 // status of the last answered call (0: none / failed)
-	h        *host
-	id       string // role#launch | driver
-	procName string
-	proc     *proc
-	ctx      context.Context
-	base     string
-	env      map[string]string
-	client   *http.Client
-	tr       *http.Transport
-	selfName string
-	mu       sync.Mutex
-	cur      string
-	prev     string
-	lastBody []byte
-	idents   map[string]string
-	asyncs   map[string]chan struct{}
+	h          *host
+	id         string // role#launch | driver
+	procName   string
+	proc       *proc
+	ctx        context.Context
+	base       string
+	env        map[string]string
+	client     *http.Client
+	tr         *http.Transport
+	selfName   string
+	mu         sync.Mutex
+	cur        string
+	prev       string
+	lastBody   []byte
+	idents     map[string]string
+	asyncs     map[string]chan struct{}
 }
 
 func newActor(h *host, id, procName string, ctx context.Context, base string, env map[string]string) *actor {
